@@ -33,12 +33,21 @@ type Server struct {
 	settingsMu            sync.RWMutex
 	supportsConfiguration bool
 	payeeTemplatesCache   sync.Map // map[protocol.DocumentURI]map[string][]analyzer.PostingTemplate
+
+	// Every open/change/close of a document starts a new diagnostics generation; results of a
+	// superseded generation are neither stored nor published. diagMu guards diagVersions (held
+	// only briefly, notification handlers take it); publishMu serialises the publish calls, so
+	// that a generation that is still the latest always publishes after any older one.
+	diagMu       sync.Mutex
+	diagVersions map[protocol.DocumentURI]uint64
+	publishMu    sync.Mutex
 }
 
 func NewServer() *Server {
 	srv := &Server{
-		analyzer: analyzer.New(),
-		loader:   include.NewLoader(),
+		analyzer:     analyzer.New(),
+		loader:       include.NewLoader(),
+		diagVersions: make(map[protocol.DocumentURI]uint64),
 	}
 	defaults := defaultServerSettings()
 	srv.cliClient = cli.NewClient(defaults.CLI.Path, defaults.CLI.Timeout)
@@ -171,7 +180,8 @@ func (s *Server) Exit(ctx context.Context) error {
 func (s *Server) DidOpen(ctx context.Context, params *protocol.DidOpenTextDocumentParams) error {
 	s.documents.Store(params.TextDocument.URI, params.TextDocument.Text)
 	s.payeeTemplatesCache.Delete(params.TextDocument.URI)
-	go s.publishDiagnostics(ctx, params.TextDocument.URI, params.TextDocument.Text)
+	version := s.nextDiagnosticsVersion(params.TextDocument.URI)
+	go s.publishDiagnosticsVersion(ctx, params.TextDocument.URI, params.TextDocument.Text, version)
 	return nil
 }
 
@@ -217,7 +227,8 @@ func (s *Server) ApplyContentChanges(ctx context.Context, docURI protocol.Docume
 				s.loader.InvalidateFile(path)
 			}
 		}
-		go s.publishDiagnostics(ctx, docURI, content)
+		version := s.nextDiagnosticsVersion(docURI)
+		go s.publishDiagnosticsVersion(ctx, docURI, content, version)
 	}
 	return nil
 }
@@ -229,6 +240,7 @@ func isFullChange(r protocol.Range) bool {
 
 func (s *Server) DidClose(ctx context.Context, params *protocol.DidCloseTextDocumentParams) error {
 	s.documents.Delete(params.TextDocument.URI)
+	s.nextDiagnosticsVersion(params.TextDocument.URI)
 	tokenCache.delete(params.TextDocument.URI)
 	return nil
 }
@@ -249,7 +261,50 @@ func (s *Server) DidSave(ctx context.Context, params *protocol.DidSaveTextDocume
 	return nil
 }
 
+func (s *Server) nextDiagnosticsVersion(docURI protocol.DocumentURI) uint64 {
+	s.diagMu.Lock()
+	defer s.diagMu.Unlock()
+	s.diagVersions[docURI]++
+	return s.diagVersions[docURI]
+}
+
+func (s *Server) currentDiagnosticsVersion(docURI protocol.DocumentURI) uint64 {
+	s.diagMu.Lock()
+	defer s.diagMu.Unlock()
+	return s.diagVersions[docURI]
+}
+
+// ifLatestDiagnostics runs fn under diagMu unless the generation has been superseded.
+func (s *Server) ifLatestDiagnostics(docURI protocol.DocumentURI, version uint64, fn func()) bool {
+	s.diagMu.Lock()
+	defer s.diagMu.Unlock()
+	if s.diagVersions[docURI] != version {
+		return false
+	}
+	fn()
+	return true
+}
+
+// publishIfLatest sends the diagnostics unless the generation has been superseded. Publishes are
+// serialised by publishMu, which no notification handler takes: a slow client delays later
+// publishes, not the handling of further notifications.
+func (s *Server) publishIfLatest(ctx context.Context, docURI protocol.DocumentURI, version uint64, diagnostics []protocol.Diagnostic) {
+	s.publishMu.Lock()
+	defer s.publishMu.Unlock()
+	if s.currentDiagnosticsVersion(docURI) != version {
+		return
+	}
+	_ = s.client.PublishDiagnostics(ctx, &protocol.PublishDiagnosticsParams{
+		URI:         docURI,
+		Diagnostics: diagnostics,
+	})
+}
+
 func (s *Server) publishDiagnostics(ctx context.Context, docURI protocol.DocumentURI, content string) {
+	s.publishDiagnosticsVersion(ctx, docURI, content, s.currentDiagnosticsVersion(docURI))
+}
+
+func (s *Server) publishDiagnosticsVersion(ctx context.Context, docURI protocol.DocumentURI, content string, version uint64) {
 	verifhook.At("diag.enter", string(docURI))
 	if s.client == nil {
 		return
@@ -257,10 +312,7 @@ func (s *Server) publishDiagnostics(ctx context.Context, docURI protocol.Documen
 
 	settings := s.getSettings()
 	if !settings.Features.Diagnostics {
-		_ = s.client.PublishDiagnostics(ctx, &protocol.PublishDiagnosticsParams{
-			URI:         docURI,
-			Diagnostics: []protocol.Diagnostic{},
-		})
+		s.publishIfLatest(ctx, docURI, version, []protocol.Diagnostic{})
 		return
 	}
 
@@ -270,7 +322,9 @@ func (s *Server) publishDiagnostics(ctx context.Context, docURI protocol.Documen
 	}
 	resolved, loadErrors := s.loader.LoadFromContent(path, content)
 	verifhook.At("diag.loaded", string(docURI))
-	s.resolved.Store(docURI, resolved)
+	if !s.ifLatestDiagnostics(docURI, version, func() { s.resolved.Store(docURI, resolved) }) {
+		return
+	}
 
 	diagnostics := s.analyze(content)
 
@@ -296,10 +350,7 @@ func (s *Server) publishDiagnostics(ctx context.Context, docURI protocol.Documen
 		})
 	}
 
-	_ = s.client.PublishDiagnostics(ctx, &protocol.PublishDiagnosticsParams{
-		URI:         docURI,
-		Diagnostics: diagnostics,
-	})
+	s.publishIfLatest(ctx, docURI, version, diagnostics)
 }
 
 func (s *Server) analyze(content string) []protocol.Diagnostic {
